@@ -156,6 +156,11 @@ class BleRig:
 
     async def _establish(self, device, name, disconnected_callback, **kw):
         await asyncio.sleep(0)
+        if getattr(self, "hold_connect", False):
+            # the connection attempt takes its time: the harness decides when (and how) it ends
+            fut = self.loop.create_future()
+            self.connecting = getattr(self, "connecting", []) + [fut]
+            await fut
         if self.connect_fail:
             raise self.connect_fail
         self.acc.reset_link()
